@@ -525,3 +525,119 @@ def r10_joined_reuse(ctx):
 
 
 RULES += [r10_joined_reuse]
+
+
+def r11_first_iteration_recorded(ctx):
+    ctx.rule("C09.r11", "analyze_function: an analysis run whose results are not recorded (return without join_invariants_with) must be "
+             "a LATER fixpoint iteration (iteration > 0), whose predecessor records them", floor=1)
+    fs = [f for f in ctx.db.fns(TD, name="analyze_function") if (f.get("qn") or "").startswith("crab::analyzer::top_down_inter_impl::analyze_function")]
+    if not ctx.need(fs, "top_down_inter_impl::analyze_function"):
+        return
+    for fn in fs:
+        body = fn["body"]
+        ps = fn.get("params", [])
+        if len(ps) != 4:
+            ctx.undecided("analyze_function no longer has (node, fac, transformer, iteration) parameters", fn, body)
+            continue
+        it_id = ps[3]["id"]
+
+        def gen(n):
+            if is_call(n, name="join_invariants_with"):
+                return ("recorded",)
+            if is_call(n, name="run_forward"):
+                return ("ran",)
+            return ()
+        f = paths.must_events(body, gen)
+        g = paths.guards(body)
+        bad = None
+        n_ret = 0
+        for r, st in f.returns:
+            if r is None or "ran" not in st or "recorded" in st:
+                continue
+            v = strip_move(r.get("v"))
+            # returning the analyzer obtained from the recursive call is fine: that call recorded
+            if any(x.get("k") == "ref" and x.get("rk") == "local" for x in walk(v)):
+                continue
+            n_ret += 1
+            later = False
+            for c, p in g.get(id(r), ()):
+                if isinstance(c, tuple):
+                    continue
+                pp = cmp_parts(c)
+                if pp and p:
+                    op, a, b = pp
+                    a, b = strip(a), strip(b)
+                    isit = lambda x: isinstance(x, dict) and x.get("k") == "ref" and x.get("id") == it_id
+                    lit = lambda x, vals: isinstance(x, dict) and x.get("k") == "lit" and x.get("v") in vals
+                    if (isit(a) and ((op == ">" and lit(b, ("0",))) or (op == ">=" and lit(b, ("1",))) or (op == "!=" and lit(b, ("0",))))) or \
+                            (isit(b) and ((op == "<" and lit(a, ("0",))) or (op == "<=" and lit(a, ("1",))) or (op == "!=" and lit(a, ("0",))))):
+                        later = True
+            if later:
+                ctx.ok("results dropped only for iteration > 0", fn, r)
+            else:
+                bad = r
+        if bad is not None:
+            ctx.bad("analyze_function can return after running the intra-procedural analysis without join_invariants_with even in the "
+                    "FIRST fixpoint iteration (no `iteration > 0` test): when the first iteration is already stable (exit bottom) the "
+                    "invariants of the function's blocks are never recorded and stay bottom", fn, bad, sig="first-iteration-not-recorded")
+        elif n_ret == 0:
+            ctx.ok("every run is recorded", fn, body)
+
+
+def r12_parallel_wiring(ctx):
+    ctx.rule("C09.r12", "formal := actual wiring is a SIMULTANEOUS assignment: when caller and callee share variable names a sequential "
+             "loop of unify(dom, formal_i, actual_i) lets a later actual read an already overwritten formal", floor=1)
+    for fn in _tr_fns(ctx, "get_callee_entry"):
+        body = fn["body"]
+        loops = [l for l in walk(body) if l.get("k") in ("for", "rangefor", "while") and any(is_call(x, name="unify") for x in walk(l.get("b")))]
+        if not loops:
+            ctx.undecided("get_callee_entry: the unification loop was not found", fn, body)
+            continue
+        for l in loops:
+            lb = l.get("b")
+            # accepted protections: fresh temporaries (a variable-factory call) or an explicit hazard test comparing a formal
+            # with the OTHER actuals (a nested loop / std::find over the argument list)
+            temps = any(is_call(x, name=("get_var_factory", "get")) and any(is_call(y, name="get_var_factory") for y in walk(x)) for x in walk(body))
+            hazard_test = any(x.get("k") in ("for", "rangefor", "while") for x in walk(lb) if x is not l) or \
+                any(is_call(x, name=("find", "find_if", "any_of", "count")) and any(is_call(y, name=("get_args", "get_inputs")) for y in walk(x))
+                    for x in walk(body))
+            if temps or hazard_test:
+                ctx.ok("get_callee_entry wires the parameters through temporaries / tests for aliasing", fn, l)
+            else:
+                ctx.bad("get_callee_entry assigns formal_i := actual_i one after the other in the caller's state: for a call g(b_in, a_in) of "
+                        "g(a_in, b_in) (caller and callee share names) the second assignment reads the already overwritten a_in; the callee "
+                        "entry becomes a_in = b_in = old b_in", fn, l, sig="sequential-unify:get_callee_entry")
+
+
+def r13_skipped_recursive_call(ctx):
+    ctx.rule("C09.r13", "a call that is neither analysed nor answered from a stored summary (callee already on the call stack and not a "
+             "fixpoint head) must weaken the invariants recorded for the callee: they do not cover this entry", floor=1)
+    for fn in _tr_fns(ctx, "analyze_callee"):
+        body = fn["body"]
+        g = paths.guards(body)
+        tops = [n for n in walk(body) if is_call(n, name="set_to_top") and is_ref(n.get("o")) and strip(n["o"]).get("n") == "callee_exit"]
+        site = None
+        for n in tops:
+            def on_stack(c):
+                return 1 if is_call(strip(c), name="find_call_stack") else 0
+            if guard_truth(g.get(id(n), ()), on_stack, body) is True:
+                site = n
+        if site is None:
+            ctx.undecided("analyze_callee: the `callee is on the call stack -> exit := top` branch was not found", fn, body)
+            continue
+        # the enclosing then-branch
+        br = None
+        for x in walk(body):
+            if x.get("k") == "if" and is_call(strip(x.get("c")), name="find_call_stack") and any(y is site for y in walk(x.get("t"))):
+                br = x.get("t")
+        weak = br is not None and any(is_call(y, name=("join_invariants_with", "join_with", "analyze_function")) for y in walk(br))
+        if weak:
+            ctx.ok("skipped recursive call weakens / re-analyses the callee", fn, site)
+        else:
+            ctx.bad("analyze_callee answers a call whose callee is already on the call stack (and is not a fixpoint head) with exit := top "
+                    "and analyses nothing: the invariants recorded for the callee (and for everything it calls) only describe the entry "
+                    "it was first analysed with, not this one (mutual recursion a <-> b entered through b: pre(b::entry) = {x_in = 5} "
+                    "although b is re-entered with 3 and 1)", fn, site, sig="skipped-recursive-call")
+
+
+RULES += [r11_first_iteration_recorded, r12_parallel_wiring, r13_skipped_recursive_call]
